@@ -358,12 +358,23 @@ def dfltRun (cfg : Cfg) (d : Nat) : String :=
 
 def handleWith (cfg : Cfg) : List String → String
   | ["ptr", _entry, ow, want] =>
-    -- parsePtr: without overwrite the store is unchanged and the same pointer comes back
-    let σ : Store := { heap := upd (fun _ => none) 1 (.node [(1, .scalar 7)]), next := 2 }
-    let r := parsePtr σ 1 (if ow == "1" then some [(1, .scalar 8)] else none)
-    let u := if ser depth r.1.heap (.ref 1) == ser depth σ.heap (.ref 1) then "u" else "W"
-    let same := if want == "-" then "-" else (if r.2 == .ref 1 then "s" else "d")
-    s!"{u} {same}\t{if ow == "1" then u else "u"} {want}"
+    if ow == "1" then
+      -- an overwrite check is attached: the rewritten value is stored through the pointer (`parsePtr`, unchanged by e584c0e)
+      let σ : Store := { heap := upd (fun _ => none) 1 (.node [(1, .scalar 7)]), next := 2 }
+      let r := parsePtr σ 1 (some [(1, .scalar 8)])
+      let u := if ser depth r.1.heap (.ref 1) == ser depth σ.heap (.ref 1) then "u" else "W"
+      let same := if want == "-" then "-" else (if r.2 == .ref 1 then "s" else "d")
+      s!"{u} {same}\t{u} {want}"
+    else
+      -- validatePointer after /repo e584c0e (`Gozod.Graph.parsePtrS false`): nothing is stored; `want = s` is asked exactly when the
+      -- answer looks like the pointee (harness ptrVerdict) — a schema that hands back what it was given: the caller's pointer
+      let σ : Gozod.Graph.GStore :=
+        { heap := Gozod.Graph.gupd (Gozod.Graph.gupd (fun _ => none) 1 [(0, .scalar 7)]) 2 [(0, .ref 1)], next := 3 }
+      let r := Gozod.Graph.parsePtrS false (.slice .any) σ 2
+      let seen (τ : Gozod.Graph.GStore) := (Gozod.Graph.ser Gozod.Graph.gdepth τ.heap (.ref 2), Gozod.Graph.reach Gozod.Graph.gdepth τ.heap (.ref 2))
+      let u := if seen r.1 == seen σ then "u" else "W"
+      let same := if want == "-" then "-" else (match r.2 with | some (.ref 2) => "s" | _ => "d")
+      s!"{u} {same}\tu {want}"
   | ["reparse"] => "same\tsame"
   | "val" :: _entry :: ow :: "|" :: g =>
     -- a schema with an overwrite / transform somewhere is outside the statement: not judged ("o")
